@@ -150,33 +150,14 @@ def table(ctx):
 # --------------------------------------------------------------------------- R01.3
 def rcoord(ctx):
     fn = ctx.fn("SVGLexicalParser._rcoord", "R01.3")
-    pos = cur = None
-    for s in fn.body:
-        if isinstance(s, ast.Assign) and isinstance(s.targets[0], ast.Name):
-            if PL.reader_of(s.value) == "coord":
-                pos = s.targets[0].id
-            if ast.unparse(s.value) == "self.parser.current_point":
-                cur = s.targets[0].id
-    ctx.need(pos and cur, "R01.3", "_rcoord: position / current point locals not found")
-    fallback = [s for s in fn.body if isinstance(s, ast.If) and PL.none_test(s.test) == cur and isinstance(s.body[0], ast.Return) and ast.unparse(s.body[0].value) == pos]
-    ctx.ob("R01.3", "_rcoord[no current point]", len(fallback) == 1, "", fn.lineno, "a leading relative command is absolute: without a current point the offset is the position")
-    last = fn.body[-1]
-    ok = False
-    detail = ast.unparse(last)
-    if isinstance(last, ast.Return) and isinstance(last.value, ast.Tuple) and len(last.value.elts) == 2:
-        try:
-            a = Alg()
-            for st in fn.body:
-                if isinstance(st, ast.Assign) and not (isinstance(st.targets[0], ast.Name) and st.targets[0].id in (pos, cur)):
-                    try:
-                        a.assign(st)
-                    except Uninterpreted:
-                        pass
-            gx, gy = a.ev(last.value.elts[0]), a.ev(last.value.elts[1])
-            ok = gx == atom("%s[0]" % pos) + atom("%s.x" % cur) and gy == atom("%s[1]" % pos) + atom("%s.y" % cur)
-        except Uninterpreted:
-            ok = False
-    ctx.ob("R01.3", "_rcoord[base]", ok, detail, last.lineno, "relative coordinates are offsets from the current point, component-wise")
+    sc = PL.reader_scenarios(ctx, "R01.3")["rcoord"]
+    ctx.ob("R01.3", "_rcoord[no current point]", sc.get((False, True)) == ("same",), str(sc.get((False, True))), fn.lineno,
+           "a leading relative command is absolute: without a current point the offset is the position")
+    got = sc.get((False, False))
+    ok = got is not None and got[0] == "pair" and got[1][0] == atom("C0") + atom("CUR.x") and got[1][1] == atom("C1") + atom("CUR.y")
+    ctx.ob("R01.3", "_rcoord[base]", ok, str(got), fn.lineno, "relative coordinates are offsets from the current point, component-wise")
+    others = sorted({".".join(attr_chain(n)) for n in ast.walk(fn) if isinstance(n, ast.Attribute) and attr_chain(n) and attr_chain(n)[0] == "self" and len(attr_chain(n)) >= 3})
+    ctx.ob("R01.3", "_rcoord[reads only the path's current point]", set(others) <= {"self.parser.current_point"}, str(others), fn.lineno, "the base of a relative coordinate is the current point and nothing else")
 
 
 # --------------------------------------------------------------------------- R01.4
@@ -185,10 +166,25 @@ def state_sources(ctx):
     # accessors
     cp = cls.getters.get("current_point")
     ctx.need(cp is not None, "R01.4", "Path.current_point not found")
-    rets = [s for s in ast.walk(cp) if isinstance(s, ast.Return) and s.value is not None and not (isinstance(s.value, ast.Constant))]
-    ok = len(rets) == 1 and "self._segments[-1].end" in ast.unparse(rets[0].value)
+    from ..flow import Aliases
+    al = Aliases(cp)
+
+    def leaves(e):
+        if isinstance(e, ast.IfExp):
+            return leaves(e.body) + leaves(e.orelse)
+        return [e]
+
+    vals = [v for r in ast.walk(cp) if isinstance(r, ast.Return) and r.value is not None for v in leaves(r.value)]
+    nonnull = [v for v in vals if not (isinstance(v, ast.Constant) and v.value is None)]
+
+    def is_last_end(v):
+        if isinstance(v, ast.Call) and call_name(v) in ("Point", "copy") and len(v.args) == 1:
+            v = v.args[0]
+        return al.canon(v) == "self._segments[-1].end"
+
+    ok = bool(nonnull) and all(is_last_end(v) for v in nonnull)
     others = [n for n in ast.walk(cp) if isinstance(n, ast.Attribute) and isinstance(n.value, ast.Name) and n.value.id == "self" and n.attr != "_segments"]
-    ctx.ob("R01.4", "Path.current_point", ok and not others, ast.unparse(rets[0].value) if rets else "", cp.lineno,
+    ctx.ob("R01.4", "Path.current_point", ok and not others, "; ".join(ast.unparse(v) for v in nonnull)[:120], cp.lineno,
            "the current point is the end of the last stored segment (and nothing else)")
     zp = cls.getters.get("z_point")
     ctx.need(zp is not None, "R01.4", "Path.z_point not found")
@@ -242,9 +238,12 @@ def state_sources(ctx):
     closed = ctx.fn("Path.closed", "R01.4")
     cc = [c for c in ast.walk(closed) if call_name(c) == "Close"]
     if cc:
-        e = def_of(closed, cc[0].args[1], cc[0]) if len(cc[0].args) > 1 else None
-        ctx.ob("R01.4", "Path.closed[target]", e is not None and ast.unparse(e.value) == "self.z_point", ast.unparse(e.value) if e is not None else "", closed.lineno,
-               "a close returns to the start of its own subpath")
+        from ..flow import Aliases as _Al
+        alc = _Al(closed)
+        tgt = alc.canon(cc[0].args[1]) if len(cc[0].args) > 1 else ""
+        ctx.ob("R01.4", "Path.closed[target]", tgt == "self.z_point", tgt, closed.lineno, "a close returns to the start of its own subpath")
+        src_ = alc.canon(cc[0].args[0]) if cc[0].args else ""
+        ctx.ob("R01.4", "Path.closed[start]", src_ == "self.current_point", src_, closed.lineno, "a close starts at the current point", sample=False)
     # H / V end point formulas
     cx, cy, V = atom("cur_x"), atom("cur_y"), atom("op0")
     for bname, own in (("horizontal", "x"), ("vertical", "y")):
